@@ -9,8 +9,13 @@ Definition add_tables : list addtable :=
   [madt_table; xsdt_table; mcfg_table; srat_table; hest_table; hmat_table Checked; hmat_table Wrapping; pptt_table; rhct_table;
    rimt_table; viot_table; cedt_table].
 
-(* tables whose additions are proved to be self-describing entries *)
-Definition walk_tables : list walktable := [madt_walk].
+(* tables whose additions are proved to be self-describing entries (every ACCEPTED addition: the entry's own length field, read
+   as the specification says, is the number of bytes the entry occupies); HMAT is registered separately (its instance needs the
+   entry to be shorter than 2^32 bytes: Proofs/HmatWalkP.v hmat_walk_fit, hmat_tiles) *)
+From ACPI Require Import Proofs.SratWalkP Proofs.XsdtWalkP Proofs.McfgWalkP Proofs.PpttWalkP Proofs.RhctWalkP Proofs.RimtWalkP
+  Proofs.ViotWalkP Proofs.CedtWalkP Proofs.HestWalkP.
+Definition walk_tables : list walktable :=
+  [madt_walk; srat_walk; xsdt_walk; mcfg_walk; pptt_walk; rhct_walk; rimt_walk; viot_walk; cedt_walk; hest_walk].
 
 (* ------------------------------------------------------------------------------------------------
    C01 / C02 for the incrementally maintained tables *)
